@@ -41,6 +41,8 @@ for p in conflicted():
             if key(f) not in have:
                 a["findings"].append(f); have.add(key(f))
         merged = json.dumps(a, indent=1, ensure_ascii=False)
+    elif p.startswith("evidence/"):
+        merged = ours   # rewritten by the next run of the check anyway
     else:
         print("UNRESOLVED:", p); continue
     open(p, "w").write(merged)
